@@ -20,6 +20,15 @@ from .effects import exc_is_sub, USER
 from .model import Func, AnalysisError
 
 
+class Reach(dict):
+    """node id -> predecessor node id, plus the state-level search tree."""
+
+    def __init__(self):
+        dict.__init__(self)
+        self.states = {}      # (node, flags) -> predecessor state
+        self.first = {}       # node -> first state that reached it
+
+
 class SNode:
     __slots__ = ('id', 'kind', 'cn', 'func', 'call', 'callee', 'succ',
                  'frame', 'cond', 'cls')
@@ -344,34 +353,86 @@ class Super:
             self._pred = p
         return self._pred
 
-    def reach(self, starts, avoid=None, edge_ok=None, stop=None):
-        """Forward reachability.  ``avoid(node)`` nodes are not entered;
-        ``stop(node)`` nodes are entered but not left.  Returns dict
-        node id -> predecessor id (for witness paths)."""
-        seen = {}
+    def _flag_update(self, sn, val):
+        """Flag valuation after node sn completed (assignment of a constant
+        to a tracked boolean local of sn's frame)."""
+        if sn.kind == 'out' and sn.cn is not None and sn.cn.kind == 'stmt' \
+                and isinstance(sn.cn.ast, ast.Assign):
+            a = sn.cn.ast
+            if isinstance(a.value, ast.Constant) and len(a.targets) == 1 and \
+                    isinstance(a.targets[0], ast.Name):
+                flags = self.cfgs.get(sn.func).flag_names
+                nm = a.targets[0].id
+                if nm in flags:
+                    val = dict(val)
+                    val[(id(sn.frame), nm)] = bool(a.value.value)
+        return val
+
+    def _flag_blocks(self, sn, lab, val):
+        """The branch edge contradicts the tracked value of a boolean local."""
+        if isinstance(lab, tuple) and len(lab) == 4 and lab[0] in ('T', 'F') \
+                and isinstance(lab[1], ast.Name):
+            k = (id(sn.frame), lab[1].id)
+            if k in val and val[k] != (lab[0] == 'T'):
+                return True
+        return False
+
+    def reach(self, starts, avoid=None, edge_ok=None, stop=None, init=None):
+        """Forward reachability, path-sensitive for boolean locals (a local
+        that is only ever assigned constants, or that is only used as a
+        truth value and was desugared into a recorded branch, is tracked
+        along the path and contradicting branches are pruned).
+        ``avoid(node)`` nodes are not entered; ``stop(node)`` nodes are
+        entered but not left.  Returns a dict node id -> predecessor id (of
+        the first state that reached the node); use ``witness`` for paths."""
+        seen = Reach()
+        st0 = tuple(sorted((init or {}).items()))
         todo = []
-        for s in starts:
-            if avoid is not None and avoid(self.nodes[s]):
+        for s_ in starts:
+            if avoid is not None and avoid(self.nodes[s_]):
                 continue
-            seen[s] = None
-            todo.append(s)
+            key = (s_, st0)
+            if key in seen.states:
+                continue
+            seen.states[key] = None
+            if s_ not in seen:
+                seen[s_] = None
+                seen.first[s_] = key
+            todo.append(key)
         while todo:
-            n = todo.pop()
+            key = todo.pop()
+            n, st = key
             sn = self.nodes[n]
             if stop is not None and stop(sn):
                 continue
+            val = self._flag_update(sn, dict(st))
+            nst = tuple(sorted(val.items()))
             for d, lab in sn.succ:
-                if d in seen:
+                if self._flag_blocks(sn, lab, val):
                     continue
                 if edge_ok is not None and not edge_ok(sn, self.nodes[d], lab):
                     continue
                 if avoid is not None and avoid(self.nodes[d]):
                     continue
-                seen[d] = n
-                todo.append(d)
+                k2 = (d, nst)
+                if k2 in seen.states:
+                    continue
+                seen.states[k2] = key
+                if d not in seen:
+                    seen[d] = n
+                    seen.first[d] = k2
+                todo.append(k2)
         return seen
 
     def witness(self, seen, target):
+        if isinstance(seen, Reach) and target in seen.first:
+            path = []
+            k = seen.first[target]
+            while k is not None:
+                path.append(k[0])
+                k = seen.states[k]
+            path.reverse()
+            return path
         path = []
         n = target
         while n is not None:
